@@ -1,6 +1,247 @@
-//! C05: implementation-side case runners (see props/c05.py). Stub until the property is built.
+//! C05: binary art formats (BIN, XBin, ADF, IDF, Tundra) through `Buffer::to_bytes` / `Buffer::from_bytes`
+//! (see props/c05.py).
+//!
+//! A picture is passed as
+//!   `<fmt> <compress 0|1> <sauce 0|1> <w> <h> <mode 0|1|2> <cells> <palette> <fonts>`
+//!   cells   : hex, 9 bytes per cell in row-major order: ch_hi, ch_lo, fg_hi, fg_lo, bg_hi, bg_lo, attr_hi, attr_lo, page
+//!             or `@seed,chmod,fgn,bgn,flagmask,pages` (cells computed from the cell index by `mix`, the same
+//!             function exists in props/c05.py)
+//!   palette : `-` (DOS default, as Buffer::new makes it) or hex, 3 bytes per colour
+//!   fonts   : `-` (font table as Buffer::new makes it) or `slot:height:data[,slot:height:data…]` with data = hex
+//!             (256*height bytes) or `@k` (byte i = pat_font(k, i))
+//! Kinds
+//!   c5rt     <picture>        save, load the bytes:  [1, n, bytes…, <load>] | [0] when saving fails
+//!   c5save   <picture>        [1, n, bytes…] | [0]
+//!   c5load   <fmt> <hex>      <load>
+//!   c5resave <fmt> <compress> <sauce> <hex>   load, save again, load:  <load> ++ ([1, n, bytes…, <load>] | [0]) (nothing after a failed first load;
+//!                                             [-1] when the first load panics)
+//!   <load> = [0] when loading fails, else [1] ++ observation:
+//!     w, h, ice_mode, layer_w, layer_h, line_count, palette_mode, font_mode,
+//!     npal, (r,g,b)*, nfonts, (slot, fw, fh, length, ndata, data…)* by ascending slot,
+//!     then for y < h, x < w of Buffer::get_char: ch, fg, bg, attr, page
+use crate::util::unhex;
 use crate::Obs;
+use icy_engine::{AttributedChar, BitFont, Buffer, Color, IceMode, Palette, SaveOptions, TextAttribute, TextPane};
+use std::path::PathBuf;
 
-pub fn run(_kind: &str, _args: &[&str]) -> Option<Obs> {
-    None
+fn u(s: &str) -> u64 {
+    s.parse().unwrap()
+}
+
+pub fn mix(seed: u32, i: u32) -> u32 {
+    let mut x = seed ^ i.wrapping_mul(0x9E37_79B1);
+    x ^= x >> 16;
+    x = x.wrapping_mul(0x85EB_CA6B);
+    x ^= x >> 13;
+    x = x.wrapping_mul(0xC2B2_AE35);
+    x ^= x >> 16;
+    x
+}
+
+pub fn pat_font(k: u32, i: u32) -> u8 {
+    ((i.wrapping_mul(k).wrapping_add(i / 7).wrapping_add(k)) & 255) as u8
+}
+
+struct Cell {
+    ch: u32,
+    fg: u32,
+    bg: u32,
+    attr: u16,
+    page: usize,
+}
+
+fn cells(spec: &str, n: usize) -> Vec<Cell> {
+    let mut out = Vec::with_capacity(n);
+    if let Some(rest) = spec.strip_prefix('@') {
+        let p: Vec<u32> = rest.split(',').map(|x| x.parse().unwrap()).collect();
+        let (seed, chmod, fgn, bgn, mask, pages) = (p[0], p[1], p[2], p[3], p[4], p[5]);
+        for i in 0..n as u32 {
+            let a = mix(seed, i);
+            let b = mix(seed ^ 0x5bd1_e995, i);
+            out.push(Cell {
+                ch: match chmod {
+                    0 => a & 255,
+                    1 => (a & 255) % 7,          // the Tundra / IDF command bytes and 0
+                    2 => if a & 3 == 0 { a >> 8 & 255 } else { 65 + (i / 5 % 3) }, // runs
+                    _ => 32 + (a % 95),
+                },
+                fg: (a >> 8) % fgn,
+                bg: (a >> 20) % bgn,
+                attr: (b & mask) as u16,
+                page: ((b >> 16) % pages) as usize,
+            });
+        }
+    } else {
+        let b = unhex(spec);
+        assert!(b.len() == 9 * n, "cells: {} bytes for {} cells", b.len(), n);
+        for c in b.chunks(9) {
+            out.push(Cell {
+                ch: (c[0] as u32) << 8 | c[1] as u32,
+                fg: (c[2] as u32) << 8 | c[3] as u32,
+                bg: (c[4] as u32) << 8 | c[5] as u32,
+                attr: (c[6] as u16) << 8 | c[7] as u16,
+                page: c[8] as usize,
+            });
+        }
+    }
+    out
+}
+
+fn build(args: &[&str]) -> (String, SaveOptions, Buffer) {
+    let fmt = args[0].to_string();
+    let mut opt = SaveOptions::new();
+    opt.compress = args[1] == "1";
+    opt.save_sauce = args[2] == "1";
+    opt.lossles_output = true;
+    let (w, h) = (u(args[3]) as i32, u(args[4]) as i32);
+    let mut buf = Buffer::new((w, h));
+    buf.ice_mode = IceMode::from_byte(u(args[5]) as u8);
+    if args[7] != "-" {
+        let p = unhex(args[7]);
+        let cols: Vec<Color> = p.chunks(3).map(|c| Color::new(c[0], c[1], c[2])).collect();
+        buf.palette = Palette::from_slice(&cols);
+    }
+    if args[8] != "-" {
+        for f in args[8].split(',') {
+            let p: Vec<&str> = f.split(':').collect();
+            let (slot, fh) = (u(p[0]) as usize, u(p[1]) as usize);
+            let data: Vec<u8> = if let Some(k) = p[2].strip_prefix('@') {
+                let k: u32 = k.parse().unwrap();
+                (0..256 * fh as u32).map(|i| pat_font(k, i)).collect()
+            } else {
+                unhex(p[2])
+            };
+            buf.set_font(slot, BitFont::create_8(format!("verif font {slot}"), 8, fh as u8, &data));
+        }
+    }
+    let cs = cells(args[6], (w * h) as usize);
+    let mut i = 0;
+    for y in 0..h {
+        for x in 0..w {
+            let c = &cs[i];
+            i += 1;
+            let mut a = TextAttribute::new(c.fg, c.bg);
+            a.attr = c.attr;
+            a.set_font_page(c.page);
+            buf.layers[0].set_char((x, y), AttributedChar::new(char::from_u32(c.ch).unwrap(), a));
+        }
+    }
+    (fmt, opt, buf)
+}
+
+fn observe(v: &mut Vec<i64>, buf: &Buffer) -> Result<(), String> {
+    let (w, h) = (buf.get_width(), buf.get_height());
+    if (w as i64) * (h as i64) > 2_000_000 || w < 0 || h < 0 {
+        return Err(format!("picture-too-large-{w}x{h}"));
+    }
+    v.push(w as i64);
+    v.push(h as i64);
+    v.push(buf.ice_mode.to_byte() as i64);
+    v.push(buf.layers[0].get_width() as i64);
+    v.push(buf.layers[0].get_height() as i64);
+    v.push(buf.layers[0].lines.len() as i64);
+    v.push(buf.palette_mode.to_byte() as i64);
+    v.push(buf.font_mode.to_byte() as i64);
+    v.push(buf.palette.len() as i64);
+    for i in 0..buf.palette.len() {
+        let (r, g, b) = buf.palette.get_rgb(i as u32);
+        v.extend([r as i64, g as i64, b as i64]);
+    }
+    let mut slots: Vec<usize> = buf.font_iter().map(|(k, _)| *k).collect();
+    slots.sort_unstable();
+    v.push(slots.len() as i64);
+    for s in slots {
+        let f = buf.get_font(s).unwrap();
+        let d = f.convert_to_u8_data();
+        v.extend([s as i64, f.size.width as i64, f.size.height as i64, f.length as i64, d.len() as i64]);
+        v.extend(d.iter().map(|x| *x as i64));
+    }
+    for y in 0..h {
+        for x in 0..w {
+            let c = buf.get_char((x, y));
+            v.extend([c.ch as i64, c.attribute.get_foreground() as i64, c.attribute.get_background() as i64, c.attribute.attr as i64, c.get_font_page() as i64]);
+        }
+    }
+    Ok(())
+}
+
+fn load(v: &mut Vec<i64>, fmt: &str, bytes: &[u8]) -> Result<Option<Buffer>, String> {
+    match Buffer::from_bytes(&PathBuf::from(format!("verif.{fmt}")), true, bytes) {
+        Ok(b) => {
+            v.push(1);
+            observe(v, &b)?;
+            Ok(Some(b))
+        }
+        Err(_) => {
+            v.push(0);
+            Ok(None)
+        }
+    }
+}
+
+fn save(v: &mut Vec<i64>, fmt: &str, opt: &SaveOptions, buf: &Buffer) -> Option<Vec<u8>> {
+    match buf.to_bytes(fmt, opt) {
+        Ok(b) => {
+            v.push(1);
+            v.push(b.len() as i64);
+            v.extend(b.iter().map(|x| *x as i64));
+            Some(b)
+        }
+        Err(_) => {
+            v.push(0);
+            None
+        }
+    }
+}
+
+pub fn run(kind: &str, args: &[&str]) -> Option<Obs> {
+    let mut v: Vec<i64> = Vec::new();
+    match kind {
+        "c5rt" | "c5save" => {
+            let (fmt, opt, buf) = build(args);
+            if let Some(bytes) = save(&mut v, &fmt, &opt, &buf) {
+                if kind == "c5rt" {
+                    if let Err(e) = load(&mut v, &fmt, &bytes) {
+                        return Some(Err(e));
+                    }
+                }
+            }
+        }
+        "c5load" => {
+            if let Err(e) = load(&mut v, args[0], &unhex(args[1])) {
+                return Some(Err(e));
+            }
+        }
+        "c5resave" => {
+            let fmt = args[0];
+            let mut opt = SaveOptions::new();
+            opt.compress = args[1] == "1";
+            opt.save_sauce = args[2] == "1";
+            opt.lossles_output = true;
+            // a loader that panics on this file did not accept it (that is property C02's subject): [-1]
+            let bytes = unhex(args[3]);
+            let first = std::panic::catch_unwind(|| {
+                let mut v1: Vec<i64> = Vec::new();
+                let r = load(&mut v1, fmt, &bytes);
+                (v1, r)
+            });
+            let Ok((v1, first)) = first else {
+                return Some(Ok(vec![-1]));
+            };
+            v.extend(v1);
+            match first {
+                Err(e) => return Some(Err(e)),
+                Ok(None) => {}
+                Ok(Some(buf)) => {
+                    if let Some(bytes) = save(&mut v, fmt, &opt, &buf) {
+                        if let Err(e) = load(&mut v, fmt, &bytes) {
+                            return Some(Err(e));
+                        }
+                    }
+                }
+            }
+        }
+        _ => return None,
+    }
+    Some(Ok(v))
 }
